@@ -38,7 +38,7 @@ def make_data(rng, n, lead, dtype):
     return a.reshape(shape)
 
 
-def judge(ctx, m, tag):
+def judge(ctx, m, tag, subset=None):
     import uxarray as ux
     from uxarray.grid.connectivity import get_face_node_partitions
 
@@ -118,6 +118,49 @@ def judge(ctx, m, tag):
                 if None in mod or [float(x) for x in mod] != [float(x) for x in orow]:
                     ctx.mismatch(f"C17/model-vs-impl/{dest}", inp, orow.tolist(), mod)
                 ctx.hit("lean-model-compared")
+    if m.n_face >= 2 and subset is not False:
+        for _ in range(1 if subset is None else 1):
+            judge_subset(ctx, ux, g, m, inp0, subset)
+
+
+def judge_subset(ctx, ux, g, m, inp0, idx=None):
+    """A sub-grid is a grid: after the parent's derived tables (n_nodes_per_face, …) exist, slice
+    node-centred data to a random face subset through the public isel and aggregate THERE; the
+    reference is the reduction over each sub-grid face's own nodes as the sub-grid reports them
+    (stale per-grid side tables carried over from the parent show up as wrong values)."""
+    rng = ctx.rng
+    if idx is None:
+        k = rng.randint(1, max(1, m.n_face - 1))
+        idx = rng.sample(range(m.n_face), k)
+        if rng.random() < 0.5:
+            idx = sorted(idx)
+    lead = [rng.randint(1, 2) for _ in range(rng.choice([0, 1]))]
+    data = make_data(rng, m.n_node, lead, "float")
+    dims = [f"d{i}" for i in range(len(lead))] + ["n_node"]
+    uxda = ux.UxDataArray(data, dims=dims, uxgrid=g, name="v")
+    inp = dict(inp0, subset_faces=[int(i) for i in idx], lead=lead, data=data.tolist())
+    try:
+        sub = uxda.isel(n_face=idx)
+        conn = sub.uxgrid.face_node_connectivity.values
+        sizes = sorted({int((r != INT_FILL).sum()) for r in conn})
+        vals = np.asarray(sub.values)
+    except Exception as e:  # slicing itself is C09's subject: not judged here
+        ctx.hit("subset:isel-raised:" + type(e).__name__)
+        return
+    faces = [[int(v) for v in r if v != INT_FILL] for r in conn]
+    for agg in rng.sample(["mean", "max", "min", "sum", "median"], 2):
+        ctx.case(("subset", m.rows(), tuple(idx), agg, data.tobytes().hex()[:48]), nontrivial=True)
+        ctx.hit("subset:" + ("mixed" if len(sizes) > 1 else "uniform") + "-sizes")
+        try:
+            res = getattr(sub, f"topological_{agg}")(destination="face")
+        except Exception as e:
+            ctx.fail(f"C17/subset/raises/{agg}/{type(e).__name__}", f"topological_{agg} on a sub-grid raises {type(e).__name__}: {e}", inp)
+            continue
+        out = np.asarray(res.values, dtype=float)
+        ref = np.stack([NP[agg](vals[..., f], axis=-1) for f in faces], axis=-1).astype(float)
+        if out.shape != ref.shape or not np.allclose(out, ref, rtol=1e-12, atol=1e-12, equal_nan=True):
+            ctx.fail("C17/subset/value/face", f"topological_{agg}(face) on the sub-grid isel(n_face={list(idx)}) differs from the reduction over each "
+                     "sub-grid face's own nodes", inp, dict(values=out.tolist(), subgrid_faces=faces), dict(reference=ref.tolist()), ["agg_face_eq"])
 
 
 DISPATCH = [("n_node", 0), ("n_edge", 1), ("n_face", 2)]
@@ -175,4 +218,4 @@ def replay(ctx, rp):
     if "centre" in inp:
         errors(ctx, m)
     else:
-        judge(ctx, m, "replay")
+        judge(ctx, m, "replay", inp.get("subset_faces"))
